@@ -1,5 +1,8 @@
 import ArimProofs.Lemmas.Fermat
+import Mathlib.Algebra.Order.Group.Nat
 /-! # C01 — ray tracing returns the globally fastest discrete ray
+
+Also: index array layout, transparency of the solver's result cache, reversal.
 
 Property theorems only; helper lemmas are in `ArimProofs/Lemmas/Fermat.lean`; the
 definitions (`scanMin`, `solveR`, `costR`) are the ones the driver executes on `Float`. -/
@@ -104,5 +107,332 @@ theorem solve_sandwich (first : Nat → Nat → α) (legs : List (Leg α)) (hpos
 /-- non-vacuity: a two-leg instance over ℕ (interface of 3 points) where the middle point wins -/
 example : solveR (fun _ k => [5, 1, 4].getD k 0) [({ m := 3, t := fun k _ => [1, 2, 7].getD k 0 } : Leg Nat)] 0 0
     = some (3, [1]) := by decide
+
+/-! ## Index array layout (`Rays.make_indices`, `Rays.expand_rays`) -/
+section Layout
+variable {β : Type} [LT β] [DecidableLT β] [Add β]
+
+/-- **`Rays.make_indices` layout.** Row 0 is the start index, row `d+1` the end index, rows
+`1..d` the interior indices in path order. -/
+theorem fullIndices_layout (i j : Nat) (ks : List Nat) :
+    (fullIndices i j ks)[0]? = some i ∧ (fullIndices i j ks)[ks.length + 1]? = some j ∧
+      ∀ d, d < ks.length → (fullIndices i j ks)[d+1]? = ks[d]? := by
+  refine ⟨by simp [fullIndices], ?_, ?_⟩
+  · simp [fullIndices]
+  · intro d hd
+    simp [fullIndices, List.getElem?_append_left hd]
+
+/-- A ray of a path with `d` legs after the first (`d` interior interfaces) has exactly `d`
+interior indices. No order laws and no non-emptiness needed. -/
+theorem solveR_length (first : Nat → Nat → β) (legs : List (Leg β)) (i j : Nat) (v : β)
+    (ks : List Nat) (h : solveR first legs i j = some (v, ks)) : ks.length = legs.length := by
+  induction legs generalizing j v ks with
+  | nil => simp [solveR] at h; simp [← h.2]
+  | cons l prev ih =>
+    obtain ⟨k, ks', v', _, hr, hp, _⟩ := solveR_cons_some first l prev i j v ks h
+    rw [hr]; simp [ih k v' ks' hp]
+
+/-- **`Rays.expand_rays`.** If the solver returns `ks ++ [k]` then `k` is a point of the last
+interior interface, `ks` is exactly the interior-index tuple the solver returns for the head
+path from `i` to `k` (this is the block `expand_rays` copies), and the time is the head time
+plus the last leg. -/
+theorem expand_layout (first : Nat → Nat → β) (l : Leg β) (prev : List (Leg β)) (i j : Nat)
+    (v : β) (ks : List Nat) (k : Nat)
+    (h : solveR first (l :: prev) i j = some (v, ks ++ [k])) :
+    k < l.m ∧ ∃ v', solveR first prev i k = some (v', ks) ∧ v = v' + l.t k j := by
+  obtain ⟨k', ks', v', hk, hr, hp, hv⟩ := solveR_cons_some first l prev i j v _ h
+  obtain ⟨h1, h2⟩ := List.append_inj' hr rfl
+  simp only [List.cons.injEq, and_true] at h2
+  subst h1 h2
+  exact ⟨hk, v', hp, hv⟩
+end Layout
+
+/-! ## The result cache of `FermatSolver._solve` is transparent -/
+section CacheT
+variable {β : Type} [LT β] [DecidableLT β] [Add β]
+
+/-- **Cache transparency.** If every table stored in the dict is the table of its key solved
+alone (`CacheInv`), then `_solve` returns the table of `key` solved alone (equality of
+functions) and the new dict satisfies the invariant again. Holds for every scalar type with a
+decidable `<` and a `+`, floats included. -/
+theorem solveC_transparent (legOf : Nat → Leg β) (cache : Cache β) (key : PKey)
+    (hc : CacheInv legOf cache) :
+    (solveC legOf cache key).1 = solvePure legOf key ∧
+      CacheInv legOf (solveC legOf cache key).2 := by
+  have h := solveCR_spec legOf key.reverse cache hc
+  rw [List.reverse_reverse] at h
+  exact h
+
+/-- the empty dict satisfies the invariant -/
+theorem cacheInv_nil (legOf : Nat → Leg β) : CacheInv legOf ([] : Cache β) := by
+  intro k tbl h; cases h
+
+/-- `FermatSolver.solve` from any dict satisfying the invariant. -/
+theorem solveAll_transparent (legOf : Nat → Leg β) (cache : Cache β) (keys : List PKey)
+    (hc : CacheInv legOf cache) :
+    (solveAll legOf cache keys).1 = keys.map (solvePure legOf) ∧
+      CacheInv legOf (solveAll legOf cache keys).2 := by
+  induction keys generalizing cache with
+  | nil => exact ⟨rfl, hc⟩
+  | cons k ks ih =>
+    obtain ⟨h1, h2⟩ := solveC_transparent legOf cache k hc
+    obtain ⟨h3, h4⟩ := ih _ h2
+    simp only [solveAll, List.map_cons]
+    exact ⟨by rw [h1, h3], h4⟩
+
+/-- **Grouping paths does not change results.** Solving any list of paths one after the other
+from the empty dict (sharing cached sub-paths, in whatever order, with repetitions) returns for
+each path exactly the table of that path solved alone. -/
+theorem solve_group_eq_alone (legOf : Nat → Leg β) (keys : List PKey) :
+    (solveAll legOf [] keys).1 = keys.map (solvePure legOf) :=
+  (solveAll_transparent legOf [] keys (cacheInv_nil legOf)).1
+
+/-- the same, per position, against the memoising solver run alone on a fresh dict -/
+theorem solve_group_eq_alone_get (legOf : Nat → Leg β) (keys : List PKey) (n : Nat)
+    (key : PKey) (h : keys[n]? = some key) :
+    (solveAll legOf [] keys).1[n]? = some ((solveC legOf [] key).1) := by
+  rw [solve_group_eq_alone, (solveC_transparent legOf [] key (cacheInv_nil legOf)).1]
+  simp [h]
+
+/-- the table obtained for a path does not depend on which group it was solved in, nor on its
+position in the group -/
+theorem solve_group_order_irrelevant (legOf : Nat → Leg β) (keys keys' : List PKey) (n n' : Nat)
+    (key : PKey) (h : keys[n]? = some key) (h' : keys'[n']? = some key) :
+    (solveAll legOf [] keys).1[n]? = (solveAll legOf [] keys').1[n']? := by
+  rw [solve_group_eq_alone_get legOf keys n key h, solve_group_eq_alone_get legOf keys' n' key h']
+
+/-- **Keys stored by one `_solve` call, for an arbitrary dict.** The new dict is the old one
+with new entries in front; a key is new iff it is a prefix of `key` of length ≥ 2 (one-leg
+paths are never stored) such that no prefix of `key` extending it (itself and `key` included)
+was already stored — the recursion stops at the first hit. -/
+theorem solveC_cache_keys (legOf : Nat → Leg β) (cache : Cache β) (key : PKey) :
+    ∃ added, (solveC legOf cache key).2 = added ++ cache ∧
+      ∀ p, p ∈ keysOf added ↔
+        (p <+: key ∧ 2 ≤ p.length ∧ ∀ q, p <+: q → q <+: key → q ∉ keysOf cache) := by
+  obtain ⟨added, h1, h2⟩ := solveCR_keys legOf key.reverse cache
+  refine ⟨added, h1, ?_⟩
+  intro p
+  rw [h2, mem_newKeysR, List.reverse_reverse]
+
+/-- **Keys stored by one `_solve` call** when the dict is prefix-closed (always the case for a
+dict produced by the solver from the empty one): the new keys are exactly the prefixes of `key`
+of length ≥ 2 that were not stored before; and the new dict is prefix-closed again. -/
+theorem solveC_cache_keys_closed (legOf : Nat → Leg β) (cache : Cache β) (key : PKey)
+    (hcl : PrefixClosed (keysOf cache)) :
+    (∃ added, (solveC legOf cache key).2 = added ++ cache ∧
+      ∀ p, p ∈ keysOf added ↔ (p <+: key ∧ 2 ≤ p.length ∧ p ∉ keysOf cache)) ∧
+    PrefixClosed (keysOf (solveC legOf cache key).2) := by
+  obtain ⟨added, h1, h2⟩ := solveC_cache_keys legOf cache key
+  have h3 : ∀ p, p ∈ keysOf added ↔ (p <+: key ∧ 2 ≤ p.length ∧ p ∉ keysOf cache) := by
+    intro p
+    rw [h2]
+    constructor
+    · rintro ⟨a, b, c⟩; exact ⟨a, b, c p (List.prefix_refl _) a⟩
+    · rintro ⟨a, b, c⟩
+      exact ⟨a, b, fun q hq1 _ hq => c (hcl q hq p hq1 b)⟩
+  refine ⟨⟨added, h1, h3⟩, ?_⟩
+  rw [h1]
+  intro q hq p hpq hp
+  simp only [keysOf, List.map_append, List.mem_append] at hq ⊢
+  by_cases hpc : p ∈ keysOf cache
+  · exact Or.inr hpc
+  · rcases hq with hq | hq
+    · exact Or.inl ((h3 p).mpr ⟨hpq.trans ((h3 q).mp hq).1, hp, hpc⟩)
+    · exact absurd (hcl q hq p hpq hp) hpc
+
+/-- keys of the dict after `FermatSolver.solve`, from a prefix-closed dict -/
+theorem solveAll_cache_keys (legOf : Nat → Leg β) (cache : Cache β) (keys : List PKey)
+    (hcl : PrefixClosed (keysOf cache)) :
+    (∀ p, p ∈ keysOf (solveAll legOf cache keys).2 ↔
+      (p ∈ keysOf cache ∨ ∃ k, k ∈ keys ∧ p <+: k ∧ 2 ≤ p.length)) ∧
+    PrefixClosed (keysOf (solveAll legOf cache keys).2) := by
+  induction keys generalizing cache with
+  | nil => exact ⟨fun p => by simp [solveAll], hcl⟩
+  | cons k ks ih =>
+    obtain ⟨⟨added, h1, h2⟩, h3⟩ := solveC_cache_keys_closed legOf cache k hcl
+    obtain ⟨h4, h5⟩ := ih _ h3
+    simp only [solveAll]
+    refine ⟨?_, h5⟩
+    intro p
+    rw [h4, h1]
+    simp only [keysOf, List.map_append, List.mem_append, List.mem_cons] at h2 ⊢
+    constructor
+    · rintro ((h | h) | ⟨k', hk', hp⟩)
+      · exact Or.inr ⟨k, Or.inl rfl, ((h2 p).mp h).1, ((h2 p).mp h).2.1⟩
+      · exact Or.inl h
+      · exact Or.inr ⟨k', Or.inr hk', hp⟩
+    · rintro (h | ⟨k', hk' | hk', hp⟩)
+      · exact Or.inl (Or.inr h)
+      · subst hk'
+        by_cases hpc : p ∈ List.map (fun x => x.1) cache
+        · exact Or.inl (Or.inr hpc)
+        · exact Or.inl (Or.inl ((h2 p).mpr ⟨hp.1, hp.2, hpc⟩))
+      · exact Or.inr ⟨k', hk', hp⟩
+
+/-- **`cached_result.keys()` after solving `keys` from scratch**: exactly the prefixes of
+length ≥ 2 of the solved paths. -/
+theorem solve_group_cache_keys (legOf : Nat → Leg β) (keys : List PKey) (p : PKey) :
+    p ∈ keysOf (solveAll legOf [] keys).2 ↔ ∃ k, k ∈ keys ∧ p <+: k ∧ 2 ≤ p.length := by
+  have h := (solveAll_cache_keys legOf [] keys (by intro q hq; cases hq)).1 p
+  simpa [keysOf] using h
+
+/-- the association list stays a dict: no key is stored twice -/
+theorem solveC_cache_nodup (legOf : Nat → Leg β) (cache : Cache β) (key : PKey)
+    (hn : (keysOf cache).Nodup) : (keysOf (solveC legOf cache key).2).Nodup :=
+  solveCR_nodup legOf key.reverse cache hn
+end CacheT
+
+/-! ## Reversal (`Rays.reverse`): transposed times, reversed interior indices -/
+section Reverse
+variable {γ : Type} [LinearOrder γ] [AddCommSemigroup γ] [AddRightMono γ]
+
+/-- core of the reversal theorems, on the `solveR` form -/
+theorem reverse_core (t0 : Nat → Nat → γ) (rest : List (Nat → Nat → γ)) (ms : List Nat)
+    (h : rest.length = ms.length) (hpos : ∀ m, m ∈ ms → 0 < m) (i j : Nat) :
+    ∃ v ks ks', solveR t0 (legsP rest ms).reverse i j = some (v, ks) ∧
+      solveR (bfirst t0 rest) (blegs t0 rest ms) j i = some (v, ks') ∧
+      validR (blegs t0 rest ms) ks ∧
+      costR (bfirst t0 rest) (blegs t0 rest ms) j ks i = some v ∧
+      (∀ q v', validR (blegs t0 rest ms) q →
+        costR (bfirst t0 rest) (blegs t0 rest ms) j q i = some v' → v ≤ v') := by
+  obtain ⟨v, kF, hsF, hvF, hcF, hmF⟩ :=
+    solve_optimal t0 (legsP rest ms).reverse (allPos_legsP rest ms h hpos) i j
+  obtain ⟨w, kB, hsB, hvB, hcB, hmB⟩ :=
+    solve_optimal (bfirst t0 rest) (blegs t0 rest ms) (allPos_blegs t0 rest ms h hpos) j i
+  have hlenF : kF.reverse.length = ms.length := by
+    have := validR_length _ _ hvF
+    have h2 := congrArg List.length (sizes_legsP rest ms h)
+    simp at this h2 ⊢; omega
+  have hlenB : kB.length = ms.length := by
+    have := validR_length _ _ hvB
+    have h2 := congrArg List.length (sizes_blegs t0 rest ms h)
+    simp at this h2 ⊢; omega
+  have hrev := fun ks hk => costR_rev add_assoc add_comm t0 rest ms i j ks h hk
+  -- the forward optimum, read backwards, is a valid tuple of the reversed path
+  have hvF' : validR (blegs t0 rest ms) kF.reverse := by
+    rw [validR_rev t0 rest ms _ h, List.reverse_reverse]; exact hvF
+  have hcF' : costR (bfirst t0 rest) (blegs t0 rest ms) j kF.reverse i = some v := by
+    rw [hrev _ hlenF, List.reverse_reverse]; exact hcF
+  have hvB' : validR (legsP rest ms).reverse kB.reverse := (validR_rev t0 rest ms _ h).mp hvB
+  have hcB' : costR t0 (legsP rest ms).reverse i kB.reverse j = some w := by
+    rw [← hrev _ hlenB]; exact hcB
+  have hvw : v = w := le_antisymm (hmF _ _ hvB' hcB') (hmB _ _ hvF' hcF')
+  refine ⟨v, kF.reverse, kB.reverse, hsF, by rw [hvw]; exact hsB, hvF', hcF', ?_⟩
+  intro q v' hq hc
+  rw [hvw]; exact hmB q v' hq hc
+
+
+/-- **`Rays.reverse` preserves the cost of every ray**, optimal or not: the cost of the reversed
+tuple along the reversed path (transposed tables, opposite order) is the cost of the tuple
+along the path. Needs only commutativity and associativity of `+` (float `+` is not associative, so for floats this
+holds only up to rounding once there are three or more legs). -/
+theorem costP_reverse {δ : Type} [AddCommSemigroup δ] (ts : List (Nat → Nat → δ)) (ms : List Nat)
+    (hlen : ts.length = ms.length + 1) (i j : Nat) (ks : List Nat) (hk : ks.length = ms.length) :
+    costP (revPath ts ms).1 (revPath ts ms).2 j ks.reverse i = costP ts ms i ks j := by
+  cases ts with
+  | nil => simp at hlen
+  | cons t0 rest =>
+    have h : rest.length = ms.length := by simpa using hlen
+    simp only [costP, toR?_revPath t0 rest ms h, List.reverse_reverse]
+    simp only [toR?]
+    exact costR_rev add_assoc add_comm t0 rest ms i j ks h hk
+
+/-- **Reversal gives the transposed times.** In a linearly ordered commutative additive
+semigroup with monotone `· + c` (in particular every `[AddCommMonoid α] [LinearOrder α]
+[IsOrderedAddMonoid α]`: ℕ, ℤ, ℚ, ℝ), for a path with non-empty interior interfaces the best
+time from `i` to `j` equals the best time of the reversed path from `j` to `i`. -/
+theorem solve_reverse (ts : List (Nat → Nat → γ)) (ms : List Nat)
+    (hlen : ts.length = ms.length + 1) (hpos : ∀ m, m ∈ ms → 0 < m) (i j : Nat) :
+    (solveP ts ms i j).map (·.1) =
+      (solveP (revPath ts ms).1 (revPath ts ms).2 j i).map (·.1) := by
+  cases ts with
+  | nil => simp at hlen
+  | cons t0 rest =>
+    have h : rest.length = ms.length := by simpa using hlen
+    obtain ⟨v, ks, ks', h1, h2, _⟩ := reverse_core t0 rest ms h hpos i j
+    simp only [solveP, toR?_revPath t0 rest ms h, h2]
+    simp only [toR?, h1, Option.map_some]
+
+/-- **The reversed index tuple of an optimal ray is an optimal ray of the reversed path**: it is
+valid for the reversed sizes, its cost along the reversed path is the reported time `v`, and no
+valid tuple of the reversed path is faster. (The solver run on the reversed path may return a
+different tuple when minimisers are not unique; its time is the same by `solve_reverse`.) -/
+theorem solve_reverse_indices (ts : List (Nat → Nat → γ)) (ms : List Nat)
+    (hlen : ts.length = ms.length + 1) (hpos : ∀ m, m ∈ ms → 0 < m) (i j : Nat)
+    (v : γ) (ks : List Nat) (hs : solveP ts ms i j = some (v, ks)) :
+    validP ms.reverse ks.reverse ∧
+    costP (revPath ts ms).1 (revPath ts ms).2 j ks.reverse i = some v ∧
+    (∀ q v', validP ms.reverse q →
+      costP (revPath ts ms).1 (revPath ts ms).2 j q i = some v' → v ≤ v') := by
+  cases ts with
+  | nil => simp at hlen
+  | cons t0 rest =>
+    have h : rest.length = ms.length := by simpa using hlen
+    obtain ⟨v0, ks0, ks', h1, _, h3, h4, h5⟩ := reverse_core t0 rest ms h hpos i j
+    simp only [solveP, toR?, h1, Option.some.injEq, Prod.mk.injEq] at hs
+    obtain ⟨hv, hk⟩ := hs
+    subst hv hk
+    have hval : ∀ q, validP ms.reverse q ↔ validR (blegs t0 rest ms) q.reverse := by
+      intro q
+      rw [validR_iff, sizes_blegs t0 rest ms h, validP, ← List.forall₂_reverse_iff,
+        List.reverse_reverse]
+    refine ⟨(hval _).mpr (by rw [List.reverse_reverse]; exact h3), ?_, ?_⟩
+    · simp only [costP, toR?_revPath t0 rest ms h, List.reverse_reverse]; exact h4
+    · intro q v' hq hc
+      simp only [costP, toR?_revPath t0 rest ms h] at hc
+      exact h5 _ v' ((hval q).mp hq) hc
+
+end Reverse
+
+/-! ## Non-vacuity on small ℕ-valued instances -/
+section Examples
+
+/-- table from a list of rows -/
+def exTab (rows : List (List Nat)) : Nat → Nat → Nat := fun a b => (rows.getD a []).getD b 0
+
+/-- a three-leg path: 2 × 2, 2 × 3, 3 × 2 tables, interior interfaces of 2 and 3 points -/
+def exTs : List (Nat → Nat → Nat) :=
+  [exTab [[5, 1], [2, 2]], exTab [[4, 9, 1], [1, 6, 3]], exTab [[3, 8], [2, 2], [7, 1]]]
+def exMs : List Nat := [2, 3]
+
+/-- leg identifiers 0, 1, 2 are the legs of `exTs`; 3 is an alternative last leg -/
+def exLeg : Nat → Leg Nat
+  | 0 => { m := 0, t := exTab [[5, 1], [2, 2]] }
+  | 1 => { m := 2, t := exTab [[4, 9, 1], [1, 6, 3]] }
+  | 2 => { m := 3, t := exTab [[3, 8], [2, 2], [7, 1]] }
+  | _ => { m := 3, t := exTab [[1, 1], [9, 0], [2, 5]] }
+
+/-- forward: best ray from 0 to 1 goes through interior points 1 then 2, time 5 -/
+example : solveP exTs exMs 0 1 = some (5, [1, 2]) := by decide
+/-- reversed path from 1 to 0: same time, reversed interior indices -/
+example : solveP (revPath exTs exMs).1 (revPath exTs exMs).2 1 0 = some (5, [2, 1]) := by decide
+example : costP (revPath exTs exMs).1 (revPath exTs exMs).2 1 [2, 1] 0 = some 5 := by decide
+example : solveP exTs exMs 1 0 = some (6, [1, 0]) ∧
+    solveP (revPath exTs exMs).1 (revPath exTs exMs).2 0 1 = some (6, [0, 1]) := by decide
+
+/-- the hypotheses of the reversal theorems are satisfiable (ℕ is an instance) -/
+example (i j : Nat) : (solveP exTs exMs i j).map (·.1) =
+    (solveP (revPath exTs exMs).1 (revPath exTs exMs).2 j i).map (·.1) :=
+  solve_reverse exTs exMs (by decide) (by decide) i j
+
+/-- solving `[0,1,2]` from the empty dict stores `[0,1]` then `[0,1,2]`, not `[0]` -/
+example : keysOf (solveC exLeg [] [0, 1, 2]).2 = [[0, 1, 2], [0, 1]] := by decide
+/-- three paths sharing the head `[0,1]`: it is stored once -/
+example : keysOf (solveAll exLeg [] [[0, 1, 2], [0, 1], [0, 1, 3]]).2 =
+    [[0, 1, 3], [0, 1, 2], [0, 1]] := by decide
+example : (solveAll exLeg [] [[0, 1, 2], [0, 1], [0, 1, 3]]).1.map (fun t => t 0 1) =
+    [some (5, [1, 2]), some (7, [1]), some (3, [1, 0])] := by decide
+example : [[0, 1, 2], [0, 1], [0, 1, 3]].map (fun k => solvePure exLeg k 0 1) =
+    [some (5, [1, 2]), some (7, [1]), some (3, [1, 0])] := by decide
+/-- a second solve of a cached key is a pure hit: nothing is added -/
+example : keysOf (solveC exLeg (solveC exLeg [] [0, 1, 2]).2 [0, 1, 2]).2 =
+    [[0, 1, 2], [0, 1]] := by decide
+
+example : fullIndices 4 7 [1, 2] = [4, 1, 2, 7] := by decide
+/-- `expand_layout` on the instance: the head `[1]` of the ray `[1, 2]` is the ray of the
+    two-leg head path to the chosen point 2 -/
+example : solveR (exLeg 0).t [exLeg 1] 0 2 = some (4, [1]) := by decide
+
+end Examples
 
 end Arim.C01
